@@ -36,7 +36,7 @@ def hasStart (l : List (Cmd n)) : Bool := l.any Cmd.isStart
 def hasPStart (l : List (Out n)) : Bool := l.any Out.isStart
 
 def isEnginePc : Pc → Bool
-  | .wait | .poll | .search _ | .ackSelf | .done => false
+  | .wait | .poll | .search _ | .ackSelf | .done | .gone => false
   | _ => true
 
 def roundPc : Pc → Bool
